@@ -44,6 +44,17 @@ Definition history_end (sys_minute include_now : bool) (ph : hphase) (calendar_d
   then (prev_trading_dt, false)
   else (calendar_dt, if sys_minute then include_now else false).
 
+(* api_base.history_bars, weekly frequency: while today's day bar is incomplete (before the open, in the auction, intraday in minute runs)
+   the current, partial week that include_now asks for ends at the previous trading day *)
+Definition pre_open (ph : hphase) : bool := match ph with HBeforeTrading | HOpenAuction => true | _ => false end.
+Definition after_close (ph : hphase) : bool := match ph with HAfterTrading => true | _ => false end.
+Definition weekly_history_end (sys_minute include_now : bool) (ph : hphase) (calendar_dt prev_trading_dt : Z) : Z :=
+  if include_now && (pre_open ph || (sys_minute && negb (after_close ph))) then prev_trading_dt else calendar_dt.
+(* BarObject.mavg / vwap (rqalpha/model/bar.py): the end of the averaged window *)
+Definition mavg_end (sys_minute daily : bool) (ph : hphase) (calendar_dt prev_trading_dt : Z) : Z :=
+  if (sys_minute && daily) || (match ph with HBeforeTrading => true | _ => false end) || (daily && (match ph with HOpenAuction => true | _ => false end))
+  then prev_trading_dt else calendar_dt.
+
 (* ---- adjustment ---- *)
 (* _factor_for_date: factors[bisect_right(dates, d) - 1] *)
 Definition factor_for (table : list (Z * Q)) (d : Z) : Q :=
